@@ -29,6 +29,26 @@ deriving DecidableEq, Repr, Inhabited
 def Score.toNat : Score → Nat
   | .none => 0 | .nodeTest => 1 | .nsWild => 2 | .qname => 3 | .other => 4
 
+/-- **Which of the proposed repairs the working tree contains** (`proposed/C09-*.diff`); the check determines the
+three flags by probing the real library (harness request `probe`) and hands them to the driver, so that the model
+follows the tree both before and after the `fix:` commits.  `Variant.asWritten` is the code as found.
+* `findAttrFix` — `findAttributes` builds its `NodeTester` with `eFROM_ATTRIBUTES` (attribute name tests) also
+  when the step type is `eMATCH_ATTRIBUTE` (so `handleFoundIndex` works for `@x[1]`);
+* `attrGuard` — the `eMATCH_ATTRIBUTE` case of `stepPattern` tests attribute nodes only;
+* `rootGuard` — the `eMATCH_IMMEDIATE_ANCESTOR` / `eMATCH_ANY_ANCESTOR` cases never accept a root node (the
+  pseudo-step for a leading `//`, `eMATCH_ANY_ANCESTOR_WITH_PREDICATE`, still does). -/
+structure Variant where
+  findAttrFix : Bool
+  attrGuard : Bool
+  rootGuard : Bool
+  /-- the any-ancestor loop backtracks (`proposed/C09-any-ancestor-backtracking.diff`, on top of the other two) -/
+  backtrack : Bool
+deriving DecidableEq, Repr, Inhabited
+
+def Variant.asWritten : Variant := ⟨false, false, false, false⟩
+def Variant.repaired : Variant := ⟨true, true, true, false⟩
+def Variant.backtracking : Variant := ⟨true, true, true, true⟩
+
 /-- step op codes of a compiled pattern -/
 inductive Code where
   | fromRoot      -- eFROM_ROOT                          R
@@ -119,36 +139,37 @@ def predicates (d : Doc) (ps : List Pred) (l : List Nat) : List Nat :=
 
 /-- `XPath::step(parent, startOpPos)` for a match step: `findAttributes` (eMATCH_ATTRIBUTE) or
 `findChildren` (the other eMATCH codes), the NodeTester being built with the *match* step type, i.e.
-never with eFROM_ATTRIBUTES; then `predicates`; `continueStepRecursion == false`. -/
-def fwdStep (d : Doc) (c : Nat) (s : MStep) : List Nat :=
+never with eFROM_ATTRIBUTES (as written; with `findAttrFix`, `findAttributes` uses eFROM_ATTRIBUTES); then
+`predicates`; `continueStepRecursion == false`. -/
+def fwdStep (v : Variant) (d : Doc) (c : Nat) (s : MStep) : List Nat :=
   match s.code with
   | .fromRoot => [0]                          -- findRoot (not reachable from handleFoundIndex: no predicates)
   | .attr =>
     predicates d s.preds
-      ((if d.kind c == .elem then d.attrs c else []).filter fun m => tester d false s.test m != .none)
+      ((if d.kind c == .elem then d.attrs c else []).filter fun m => tester d v.findAttrFix s.test m != .none)
   | _ => predicates d s.preds ((d.children c).filter fun m => tester d false s.test m != .none)
 
 /-- `XPath::handleFoundIndex` -/
-def handleFoundIndex (d : Doc) (s : MStep) (ctx : Nat) : Score :=
+def handleFoundIndex (v : Variant) (d : Doc) (s : MStep) (ctx : Nat) : Score :=
   match d.parent ctx with
   | none => .none
-  | some p => if (fwdStep d p s).contains ctx then .other else .none
+  | some p => if (fwdStep v d p s).contains ctx then .other else .none
 
 def Pred.usesPos : Pred → Bool
   | .last | .posEq _ | .posNeLast => true
   | _ => false
 
 /-- `XPath::doStepPredicate` over the predicates still to be looked at -/
-def doStepPredicate (d : Doc) (s : MStep) : List Pred → Nat → Score → Score
+def doStepPredicate (v : Variant) (d : Doc) (s : MStep) : List Pred → Nat → Score → Score
   | [], _, score => score
   | p :: ps, ctx, score =>
     if p.usesPos then                                   -- eOP_PREDICATE_WITH_POSITION
-      doStepPredicate d s ps ctx (handleFoundIndex d s ctx)
+      doStepPredicate v d s ps ctx (handleFoundIndex v d s ctx)
     else
       match predVal d p ctx 0 0 with                    -- predicate(context, opPos, executionContext)
-      | .num _ => doStepPredicate d s ps ctx (handleFoundIndex d s ctx)
+      | .num _ => doStepPredicate v d s ps ctx (handleFoundIndex v d s ctx)
       | .bool b =>
-        if b then doStepPredicate d s ps ctx score
+        if b then doStepPredicate v d s ps ctx score
         else .none                                      -- score = eMatchScoreNone; break
 
 /-! ## stepPattern -/
@@ -165,16 +186,22 @@ def climb (d : Doc) (f : Nat → Score) : Nat → Nat → Score × Option Nat
       | some p => climb d f fuel p
       | none => (f ctx, none)
 
+/-- node test of a child-axis match step on `ctx`; with `rootGuard`, a root node is refused unless the step is the
+pseudo-step of a leading `//` -/
+def childTest (v : Variant) (d : Doc) (s : MStep) (ctx : Nat) : Score :=
+  if v.rootGuard && s.code != .anyAncPred && d.kind ctx == .root then .none else tester d false s.test ctx
+
 /-- body of the eMATCH_ANY_ANCESTOR loop: node test, then (only if it passed) the step's predicates -/
-def anyBody (d : Doc) (s : MStep) (ctx : Nat) : Score :=
-  let sc := tester d false s.test ctx
-  if sc != .none then doStepPredicate d s s.preds ctx sc else sc
+def anyBody (v : Variant) (d : Doc) (s : MStep) (ctx : Nat) : Score :=
+  let sc := childTest v d s ctx
+  if sc != .none then doStepPredicate v d s s.preds ctx sc else sc
 
 /-- The second half of `XPath::stepPattern` — everything after the recursion block: `switch(stepType)`, the
 trailing `doStepPredicate` call (`fDoPredicates`), the `scoreHolder` update and the return value.
 `nextCode` is the op code of the step to the right (`prevStepType` in the eFROM_ROOT case), `context` the node
 this step is tested on, `sh` the value of `scoreHolder` on entry.  Returns (returned node, scoreHolder). -/
-def evalStepAt (d : Doc) (s : MStep) (nextCode : Option Code) (context : Nat) (sh : Score) : Option Nat × Score :=
+def evalStepAt (v : Variant) (d : Doc) (s : MStep) (nextCode : Option Code) (context : Nat) (sh : Score) :
+    Option Nat × Score :=
   -- switch(stepType): (score, context, fDoPredicates)
   let r : Score × Option Nat × Bool :=
     match s.code with
@@ -184,19 +211,21 @@ def evalStepAt (d : Doc) (s : MStep) (nextCode : Option Code) (context : Nat) (s
         let (sc, c) := climb d (tester d false s.test) context context
         (sc, c, true)
       else (.none, some context, true)
-    | .attr => (tester d true s.test context, some context, true)
+    | .attr =>
+      if v.attrGuard && d.kind context != .attr then (.none, some context, true)
+      else (tester d true s.test context, some context, true)
     | .anyAnc | .anyAncPred =>
       if d.kind context != .attr then
-        let (sc, c) := climb d (anyBody d s) context context
+        let (sc, c) := climb d (anyBody v d s) context context
         (sc, c, false)
       else (.none, some context, false)
     | .immAnc =>
-      if d.kind context != .attr then (tester d false s.test context, some context, true)
+      if d.kind context != .attr then (childTest v d s context, some context, true)
       else (.none, some context, true)
   let score := r.1
   let score :=
     match r.2.1 with
-    | some c => if r.2.2 && score != .none then doStepPredicate d s s.preds c score else score
+    | some c => if r.2.2 && score != .none then doStepPredicate v d s s.preds c score else score
     | none => score
   let sh' := if sh == .none || score == .none then score else sh
   (if score == .none then none else r.2.1, sh')
@@ -206,11 +235,11 @@ end of the LocationPathPattern are the list; returns (returned node, scoreHolder
 `if (eENDOP != nextStepType)`: recurse on the steps to the right with the *same* context; a null result or a
 None score returns (0, None); then `scoreHolder = eMatchScoreOther`, `context = parent` — and when there is no
 parent the second "big ugly return" leaves (0, Other). -/
-def stepPattern (d : Doc) : List MStep → Nat → Score → Option Nat × Score
+def stepPattern (v : Variant) (d : Doc) : List MStep → Nat → Score → Option Nat × Score
   | [], _, sh => (none, sh)
-  | [s], context, sh => evalStepAt d s none context sh
+  | [s], context, sh => evalStepAt v d s none context sh
   | s :: s' :: rest, context, sh0 =>
-    let r := stepPattern d (s' :: rest) context sh0
+    let r := stepPattern v d (s' :: rest) context sh0
     match r.1 with
     | none => (none, .none)                         -- 0 == context → scoreHolder = None → return 0
     | some c =>
@@ -218,20 +247,68 @@ def stepPattern (d : Doc) : List MStep → Nat → Score → Option Nat × Score
       else
         match d.parent c with                       -- scoreHolder = eMatchScoreOther; context = parent
         | none => (none, .other)                    -- second "big ugly return": scoreHolder stays Other
-        | some p => evalStepAt d s (some s'.code) p .other
+        | some p => evalStepAt v d s (some s'.code) p .other
+
+/-! ## the matcher with a backtracking any-ancestor loop (`proposed/C09-any-ancestor-backtracking.diff`)
+
+In the patched `stepPattern` the any-ancestor loop, having found an ancestor that passes the step, matches the steps
+to the *left* of it (`stepPattern(parent, patternStartPos, …, stopPos = startOpPos)`) before settling, and goes on
+climbing when they fail; the eFROM_ROOT case no longer climbs; the second early return clears `scoreHolder`.  The
+callers to the left then repeat the evaluation the loop has already made, with the same outcome.  The model keeps
+the control structure — recursion to the right first, carrying the steps to the left (`lppB`); at each step
+leftwards either the parent or, for an any-ancestor step, every ancestor-or-self of the parent, nearest first
+(`leftOK`) — and drops the duplicated work and the `scoreHolder` bookkeeping (the result is the step's own score for
+a one-step pattern and `eMatchScoreOther` otherwise, as before). -/
+
+/-- node test (with the attribute testers) followed by `doStepPredicate`: what the eMATCH_ATTRIBUTE case and the
+trailing `doStepPredicate` call compute -/
+def attrBody (v : Variant) (d : Doc) (s : MStep) (ctx : Nat) : Score :=
+  let sc := if v.attrGuard && d.kind ctx != .attr then Score.none else tester d true s.test ctx
+  if sc != .none then doStepPredicate v d s s.preds ctx sc else sc
+
+/-- one step tested on one node: the `switch` of `stepPattern` without the loops -/
+def stepAtB (v : Variant) (d : Doc) (s : MStep) (x : Nat) : Score :=
+  match s.code with
+  | .fromRoot => if d.kind x == .root then .other else .none
+  | .attr => attrBody v d s x
+  | _ => if d.kind x != .attr then anyBody v d s x else .none
+
+/-- the steps to the left (`revLeft`, nearest first) of a step matched at `x` -/
+def leftOK (v : Variant) (d : Doc) : List MStep → Nat → Bool
+  | [], _ => true
+  | s :: rest, x =>
+    match d.parent x with
+    | none => false
+    | some p =>
+      if s.code == .anyAnc || s.code == .anyAncPred then
+        (d.ancOrSelf p).any fun a => stepAtB v d s a != .none && leftOK v d rest a
+      else stepAtB v d s p != .none && leftOK v d rest p
+
+/-- `locationPathPattern` of the patched code: recursion to the right carrying the steps to the left -/
+def lppB (v : Variant) (d : Doc) : List MStep → List MStep → Nat → Score
+  | [], _, _ => .none
+  | [s], revLeft, n =>
+    let sc := stepAtB v d s n
+    if sc != .none && leftOK v d revLeft n then (if revLeft.isEmpty then sc else .other) else .none
+  | s :: s' :: r, revLeft, n => lppB v d (s' :: r) (s :: revLeft) n
 
 /-- `XPath::locationPathPattern` -/
-def locationPathPattern (d : Doc) (steps : List MStep) (n : Nat) : Score :=
-  (stepPattern d steps n .none).2
+def locationPathPattern (v : Variant) (d : Doc) (steps : List MStep) (n : Nat) : Score :=
+  (stepPattern v d steps n .none).2
+
+/-- `locationPathPattern` of the variant under consideration -/
+def lpp (v : Variant) (d : Doc) (steps : List MStep) (n : Nat) : Score :=
+  if v.backtrack then lppB v d steps [] n else locationPathPattern v d steps n
 
 /-- `XPath::doGetMatchScore`: alternatives in order, the first score ≠ None wins -/
-def getMatchScoreC (d : Doc) : List (List MStep) → Nat → Score
+def getMatchScoreC (v : Variant) (d : Doc) : List (List MStep) → Nat → Score
   | [], _ => .none
   | alt :: alts, n =>
-    let sc := locationPathPattern d alt n
-    if sc == .none then getMatchScoreC d alts n else sc
+    let sc := lpp v d alt n
+    if sc == .none then getMatchScoreC v d alts n else sc
 
 /-- `XPath::getMatchScore` of the compiled pattern -/
-def getMatchScore (d : Doc) (P : Pattern) (n : Nat) : Score := getMatchScoreC d (P.map compilePath) n
+def getMatchScore (v : Variant) (d : Doc) (P : Pattern) (n : Nat) : Score :=
+  getMatchScoreC v d (P.map compilePath) n
 
 end XalanModel.C09
